@@ -345,3 +345,85 @@ pub static LAST_PANIC_ANY_THREAD: std::sync::Mutex<(String, String)> = std::sync
 pub fn last_panic() -> (String, String) {
     LAST_PANIC.with(|p| p.borrow().clone())
 }
+
+
+// ------------------------------------------------------------------------------------------------
+// Watchdog: a call into anthem that never returns must become a verdict with a replayable item,
+// not a check that never ends. Explorers bracket each unit of work with `run.watch(..)`; a
+// monitor thread reports the first unit that exceeds the limit, writes the evidence and exits.
+// One slot per worker thread (registered once), so the per-item cost is an uncontended lock.
+pub struct WatchSlot {
+    since_ms: AtomicU64, // 0 = idle, else milliseconds since the run started (+1)
+    what: Mutex<(&'static str, &'static str, String, &'static str, &'static str)>, // class key, replay field, item text, second field, its value
+}
+pub static WATCH_SLOTS: Mutex<Vec<std::sync::Arc<WatchSlot>>> = Mutex::new(Vec::new());
+thread_local! {
+    static MY_SLOT: std::sync::Arc<WatchSlot> = {
+        let s = std::sync::Arc::new(WatchSlot { since_ms: AtomicU64::new(0), what: Mutex::new(("", "", String::new(), "", "")) });
+        WATCH_SLOTS.lock().unwrap().push(s.clone());
+        s
+    };
+}
+pub struct WatchGuard;
+impl Drop for WatchGuard {
+    fn drop(&mut self) {
+        MY_SLOT.with(|s| s.since_ms.store(0, Ordering::Release));
+    }
+}
+impl Run {
+    /// registers the unit of work the calling thread starts now (not nestable); the guard ends it
+    pub fn watch(&self, key: &'static str, field: &'static str, item: &str) -> WatchGuard {
+        self.watch_with(key, field, item, "", "")
+    }
+    pub fn watch_with(&self, key: &'static str, field: &'static str, item: &str, field2: &'static str, value2: &'static str) -> WatchGuard {
+        MY_SLOT.with(|s| {
+            {
+                let mut w = s.what.lock().unwrap();
+                w.0 = key;
+                w.1 = field;
+                w.2.clear();
+                w.2.push_str(item);
+                w.3 = field2;
+                w.4 = value2;
+            }
+            s.since_ms.store(self.start.elapsed().as_millis() as u64 + 1, Ordering::Release);
+        });
+        WatchGuard
+    }
+}
+pub fn hang_limit_s(run: &Run) -> u64 {
+    std::env::var("VERIF_HANG_LIMIT").ok().and_then(|s| s.parse().ok()).unwrap_or(if run.quick() { 30 } else { 120 })
+}
+pub fn start_watchdog(run: &'static Run) {
+    let limit = hang_limit_s(run);
+    std::thread::spawn(move || loop {
+        std::thread::sleep(std::time::Duration::from_millis(500));
+        let now = run.start.elapsed().as_millis() as u64 + 1;
+        let mut stuck: Option<(&'static str, &'static str, String, u64, &'static str, &'static str)> = None;
+        if let Ok(slots) = WATCH_SLOTS.lock() {
+            for slot in slots.iter() {
+                let since = slot.since_ms.load(Ordering::Acquire);
+                if since != 0 && now.saturating_sub(since) >= limit * 1000 {
+                    let w = slot.what.lock().unwrap();
+                    stuck = Some((w.0, w.1, w.2.clone(), now.saturating_sub(since) / 1000, w.3, w.4));
+                    break;
+                }
+            }
+        }
+        if let Some((key, field, item, age, field2, value2)) = stuck {
+            let mut m = Map::new();
+            m.insert("kind".into(), json!("the call did not return"));
+            m.insert("waited_s".into(), json!(age));
+            m.insert("limit_s".into(), json!(limit));
+            m.insert(field.to_string(), json!(item));
+            if !field2.is_empty() {
+                m.insert(field2.to_string(), json!(value2));
+            }
+            run.violation(format!("hang|{key}"), Value::Object(m));
+            *run.exhaustive.lock().unwrap() = false;
+            run.assume(&format!("exploration stopped at the first unit of work that did not return within {limit} s; the rest of the alphabet was not visited in this run"));
+            let code = run.finish();
+            std::process::exit(code);
+        }
+    });
+}
